@@ -1,5 +1,5 @@
 SPECIFICATION Spec
-CONSTANT Cfg <- MCCfg3x4a2
+CONSTANT Cfg <- MCCfg3x4a1
 CONSTANT PostSteps = 1
 CONSTANT MaxLim = 3
 CONSTANT WithDefault = FALSE
